@@ -100,12 +100,46 @@ def fold_sample(repo, concrete=None, resumed: bool | None = False, final: bool |
                       dict(resumed=resumed, final=final, store_hist=store_hist))
 
 
-def history_appends(sample):
-    """All ``<...>.history.<series>.append(value)`` call nodes in *sample*."""
+_HA_CACHE: dict = {}
+
+
+def history_appends(sample, repo=None, cls=None):
+    """(series, call node) for every append/extend/insert on a series of the
+    sampler's history object in function *sample*.  Resolved on values, not on
+    spelling: ``h = self.history; h.beta.append(b)`` is found as well."""
+    if repo is None:
+        # syntactic fallback
+        out = []
+        for n in walk_no_nested(sample.node):
+            if isinstance(n, ast.Call) and isinstance(n.func, ast.Attribute) and n.func.attr in ("append", "extend", "insert"):
+                r = n.func.value
+                if isinstance(r, ast.Attribute) and isinstance(r.value, ast.Attribute) and r.value.attr == "history":
+                    out.append((r.attr, n))
+        return out
+    key = (id(repo), sample.ident, getattr(cls, "ident", None))
+    if key in _HA_CACHE:
+        return _HA_CACHE[key]
+    no_inline = {f.ident for f in repo.all_functions(include_nested=False) if f is not sample}
+    ev = Evaluator(repo, max_depth=0, assume=lambda c: None)
+    ev.run(sample, cls or sample.cls)
+    hist_vals = {("attr", T.atom(sample.params[0]), "history")}
+    for (o, a, v, node, fn, seq) in ev.stores:
+        if a == "history" and o == T.atom(sample.params[0]):
+            hist_vals.add(v)
+    for lp in ev.loops:
+        for (o, a), v in lp.get("body_heap", {}).items():
+            if a == "history":
+                hist_vals.add(v)
+    hv = ev.heap.get((T.atom(sample.params[0]), "history"))
+    if hv is not None:
+        hist_vals.add(hv)
+        hist_vals |= set(T.phi_leaves(hv))
     out = []
-    for n in walk_no_nested(sample.node):
-        if isinstance(n, ast.Call) and isinstance(n.func, ast.Attribute) and n.func.attr in ("append", "extend", "insert"):
-            r = n.func.value
-            if isinstance(r, ast.Attribute) and isinstance(r.value, ast.Attribute) and r.value.attr == "history":
-                out.append((r.attr, n))
+    for e in ev.events:
+        if e.func is sample and e.callee in ("method:append", "method:extend", "method:insert") and e.args:
+            r = e.args[0]
+            if r[0] == "attr" and (r[1] in hist_vals or (r[1][0] == "phi" and set(T.phi_leaves(r[1])) & hist_vals)):
+                if isinstance(e.node, ast.Call):
+                    out.append((r[2], e.node))
+    _HA_CACHE[key] = out
     return out
